@@ -26,6 +26,20 @@ def _reexec_pinned():
         os.execve(sys.executable, [sys.executable, '-B'] + sys.argv, env)
 
 
+def _library_site(tb_text, repo_dir):
+    """'file:function' of the innermost frame if it lies inside the library under test."""
+    import re
+    # with worker processes the original traceback comes first (RemoteTraceback text)
+    first = tb_text.split('The above exception was the direct cause')[0]
+    frames = re.findall(r'File "([^"]+)", line \d+, in (\S+)', first)
+    if not frames:
+        return None
+    path, fn = frames[-1]
+    if path.startswith(repo_dir.rstrip('/') + '/') and '/mosromgr/' in path:
+        return f"{path.split('/mosromgr/')[-1]}:{fn}"
+    return None
+
+
 def main():
     ap = argparse.ArgumentParser()
     ap.add_argument('prop')
@@ -50,6 +64,10 @@ def main():
         if args.replay:
             with open(args.replay) as f:
                 rec = json.load(f)
+            if 'traceback' in rec['case']:
+                print('this replay file records a library exception raised during a check run; it holds the '
+                      'traceback, not an input - re-run the check to reproduce:\n' + rec['case']['traceback'][-1500:])
+                return 2
             fails = mod.rejudge(rec['case'])
             known = findings.open_known(prop)
             bad = [f for f in fails if f.sig not in known]
@@ -127,8 +145,26 @@ def main():
             print(f'HARNESS-ERROR property={prop} vacuous: fewer than 2 non-trivial cases')
             return 2
         return 0
-    except Exception:
-        traceback.print_exc()
+    except Exception as e:
+        tb = traceback.format_exc()
+        sys.stderr.write(tb)
+        site = _library_site(tb, env.REPO_DIR)
+        if site and not args.replay:
+            # The exception was raised *inside mosromgr* while the check was computing its
+            # own view with inputs that are inside the property's domain (on the unchanged
+            # tree this never happens - it would be a broken check).  The library failing
+            # there is reported as a violation of the property under test, not hidden as
+            # a harness error.
+            etype = type(e).__name__
+            sig = f'{prop}|library-exception-during-check|{etype}|{site}'
+            rec = {'case': {'traceback': tb[-6000:]}, 'detail': f'mosromgr raised {etype} at {site} while the '
+                   f'check was exercising it with in-domain input: {e}', 'expected': 'no exception',
+                   'observed': etype, 'count': 1}
+            path = findings.write_replay(prop, sig, rec, seed, False)
+            print(f'VIOLATION property={prop} replay={path}')
+            print(f'  signature: {sig}')
+            print(f'  {rec["detail"][:400]}')
+            return 1
         print(f'HARNESS-ERROR property={prop} internal error (not a verdict)')
         return 2
 
